@@ -10,29 +10,51 @@
             through Message.extra, a non-Python server simply writes them)
      at     "unary" (before the result) | "init" (method body of a stream, no header) | "init_hdr" (method body, header
             declared: travels in the header stream) | "pre_prod" / "pre_exch" (in a process() step of a producer /
-            an exchange, before the batch) | "post_prod" / "post_exch" (in a step, after the batch)
+            an exchange, before the batch) | "post_prod" / "post_exch" (in a step, after the batch, the caller then takes
+            another turn) | "tail_prod" / "tail_exch" (after the batch of the LAST turn the caller takes: the message is
+            met only while the caller leaves the session)
+     exit   how the caller leaves a session whose last turn has a tail message: "close" | "cancel" | "with" (__exit__);
+            "close" everywhere else
      tr     "pipe" | "http"
+     route  which server branch writes the step's output (_flush_collector / the HTTP producer turn):
+            "inline" | "shm" (socket transport with a shared-memory side channel; the data batch is large enough to
+            travel through the segment, log batches stay on the pipe) | "ext" (an external-storage configuration is
+            present, its threshold is not reached) | "buf" (HTTP with max_response_bytes: a producer's turns are
+            buffered into one response).  Routes are orthogonal to the message's content, so the non-inline routes
+            are crossed with every extra class, emission point and exit but one level / text class.
    Every case must be delivered exactly once with level, text and user extras equal to what was emitted.             *)
 EXTENDS Naturals, Sequences, FiniteSets
 
 Lvls == {"ERROR", "WARN", "INFO", "DEBUG", "TRACE"}
 Txts == {"ascii", "empty", "unicode", "multiline", "jsonish", "long"}
 Extras == {"none", "plain", "many", "unicode", "emptykey", "level", "message", "self", "both"}
-Ats == {"unary", "init", "init_hdr", "pre_prod", "post_prod", "pre_exch", "post_exch"}
-Cases == {[lvl |-> l, txt |-> t, extra |-> x, at |-> a, tr |-> r] : l \in Lvls, t \in Txts, x \in Extras, a \in Ats, r \in {"pipe", "http"}}
-Expected(c) == [delivered |-> 1, intact |-> TRUE]
+Ats == {"unary", "init", "init_hdr", "pre_prod", "post_prod", "pre_exch", "post_exch", "tail_prod", "tail_exch"}
+Tails == {"tail_prod", "tail_exch"}
+Exits == {"close", "cancel", "with"}
+Routes == {"inline", "shm", "ext", "buf"}
+ProdAts == {"init", "init_hdr", "pre_prod", "post_prod", "tail_prod"}
+Cases == {c \in [lvl : Lvls, txt : Txts, extra : Extras, at : Ats, tr : {"pipe", "http"}, exit : Exits, route : Routes] :
+             /\ c.at \notin Tails => c.exit = "close"
+             /\ c.route # "inline" => (c.lvl = "INFO" /\ c.txt = "ascii")
+             /\ c.route = "shm" => c.tr = "pipe"
+             /\ c.route = "buf" => (c.tr = "http" /\ c.at \in ProdAts)}
+\* a socket session reads its output to the end when it is left, whatever the way out; over HTTP an exchange has read the
+\* whole response before it returns the batch, but a producer session abandons what follows the batch it was asked for
+MustDeliver(c) == ~(c.tr = "http" /\ c.at = "tail_prod")
+Expected(c) == [delivered |-> IF MustDeliver(c) THEN 1 ELSE 0, intact |-> TRUE]
 
 ReservedNames(c) == c.extra \in {"level", "message", "self", "both"}
-AlwaysDelivered(c) == Expected(c).delivered = 1 /\ Expected(c).intact
+AlwaysDelivered(c) == (MustDeliver(c) <=> Expected(c).delivered = 1) /\ Expected(c).intact
+OnlyHttpProducerTailMayBeLost(c) == ~MustDeliver(c) => (c.tr = "http" /\ c.at = "tail_prod")
 
 (* o = [failed, delivered, level_ok, text_ok, extra_ok, before_payload]
      before_payload: the callback ran before the result / batch the message precedes was returned to the caller
      (a message logged after the batch precedes the NEXT item: not asserted for the two post emission points)                  *)
 Conforms(c, o) ==
        {"CallSucceeds"   : x \in {1} \cap (IF ~o.failed THEN {} ELSE {1})}
-  \cup {"DeliveredOnce"  : x \in {1} \cap (IF o.failed \/ o.delivered = 1 THEN {} ELSE {1})}
+  \cup {"DeliveredOnce"  : x \in {1} \cap (IF o.failed \/ o.delivered = 1 \/ (~MustDeliver(c) /\ o.delivered = 0) THEN {} ELSE {1})}
   \cup {"LevelPreserved" : x \in {1} \cap (IF o.delivered >= 1 => o.level_ok THEN {} ELSE {1})}
   \cup {"TextPreserved"  : x \in {1} \cap (IF o.delivered >= 1 => o.text_ok THEN {} ELSE {1})}
   \cup {"ExtraPreserved" : x \in {1} \cap (IF o.delivered >= 1 => o.extra_ok THEN {} ELSE {1})}
-  \cup {"BeforeWhatItPrecedes" : x \in {1} \cap (IF (o.delivered >= 1 /\ c.at \notin {"post_prod", "post_exch"}) => o.before_payload THEN {} ELSE {1})}
+  \cup {"BeforeWhatItPrecedes" : x \in {1} \cap (IF (o.delivered >= 1 /\ c.at \notin {"post_prod", "post_exch"} \cup Tails) => o.before_payload THEN {} ELSE {1})}
 ============================================================================================
